@@ -95,6 +95,41 @@ PROPS['C17'] = {
     'level_note': 'Trusted: bv::BitVec model, popcount and binary_search std specs, float ceil stub; wavelet matrix undecided.',
 }
 
+PROPS['C09'] = {
+    'level': 'other',
+    'units': [],
+    'kani': [
+        {'name': 'myers_step_u8', 'crate': 'myers', 'harness': 'myers_step_u8', 'timeout': 600, 'obligation': 'Myers::<u8>::_step == DP column recurrence for every m in 1..=8, every peq mask, every non-negative column'},
+        {'name': 'myers_step_u16', 'crate': 'myers', 'harness': 'myers_step_u16', 'timeout': 900, 'obligation': 'same at u16 (m in 1..=16)'},
+        {'name': 'myers_step_u32', 'crate': 'myers', 'harness': 'myers_step_u32', 'timeout': 1500, 'obligation': 'same at u32 (m in 1..=32)'},
+        {'name': 'myers_step_u64', 'crate': 'myers', 'harness': 'myers_step_u64', 'timeout': 3600, 'thorough_only': True, 'obligation': 'same at u64 (m in 1..=64; about 12 min)'},
+    ],
+    'oracle': 'C09',
+    'decided': ['one Myers column step (the real Myers::<T>::_step, T in u8/u16/u32 quick, u64 thorough) maps the bit-encoded DP column of the edit-distance recurrence to the next column, exactly, for every pattern length up to the word width, every match mask and every column (complete for the width: fixed-count loops with unwinding assertions)'],
+    'undecided': ['the induction over text positions (find_all_end/distance/find_best_end live in impl_myers! macro code)', 'block-based Myers (long.rs)',
+                  'Ukkonen matcher and hamming/levenshtein (not yet under contract)', 'SIMD / bounded distances (external crates triple_accel, editdistancek)'],
+    'trusted': ['Kani/CBMC; dist <= 200 and non-negative column entries assumed in the harness (true of every reachable column)'],
+    'level_text': 'Complete (not bounded) Kani proofs that one column step of the real bit-parallel Myers implementation equals the DP recurrence, per word width; everything around the step (iteration over the text, the block version, other matchers) is not decided by this check.',
+    'level_note': 'Level other (partial): the step is proved, the property as a whole is not. Trusted: Kani 0.68/CBMC 6.11; harness assumptions listed in evidence.',
+    'technique': 'loop-free/fixed-width Kani (CBMC) proof harness over the real function, complete for the word width',
+}
+
+PROPS['C20'] = {
+    'level': 'other',
+    'units': [],
+    'kani': [
+        {'name': 'dna_complement', 'crate': 'alphabets', 'harness': 'dna_complement_all_bytes', 'timeout': 1200, 'obligation': 'dna::complement: involution, case preserving, identity outside the IUPAC table, lower-case twin, Watson-Crick pairs; all 256 bytes'},
+        {'name': 'rna_complement', 'crate': 'alphabets', 'harness': 'rna_complement_all_bytes', 'timeout': 1200, 'obligation': 'rna::complement: the same over the RNA table'},
+    ],
+    'oracle': 'C20',
+    'decided': ['dna::complement and rna::complement (through the real lazy_static tables): involution on all 256 bytes, case preserved, bytes outside the IUPAC table unchanged, lower-case entries mirror upper-case ones (complete over the byte domain)'],
+    'undecided': ['ORF finder (VecDeque sliding window; not under contract)', 'Alphabet / RankTransform (thin wrappers over bit_set / vec_map)', 'gc_content (f32)', 'revcomp iterator chain (rev/map/collect: std adapter semantics)'],
+    'trusted': ['Kani/CBMC'],
+    'level_text': 'Complete Kani proofs over the whole byte domain for the two complement tables; the ORF finder, alphabets and GC content are not decided by this check.',
+    'level_note': 'Level other (partial). Trusted: Kani 0.68/CBMC 6.11.',
+    'technique': 'loop-free Kani (CBMC) proof harness over the real lazy_static tables, exhaustive over u8',
+}
+
 NOT_APPLICABLE = {
     'C10': 'Myers traceback lives in impl_myers! macro bodies and generic handler traits over iterator adapter chains (rev().chain(cycle())): outside Verus extraction (macros, adapters) and outside Kani\'s tractable loop-free fragment; no contract within reach decides any clause (DESIGN.md §4 C10).',
     'C11': 'FASTA/FASTQ parsing is String-based (read_line, trim_end, splitn(char::is_whitespace), write!): Verus has no str byte reasoning or specs for these, Kani explodes on String/UTF-8/fmt (DESIGN.md §4 C11).',
